@@ -330,6 +330,13 @@ def code_schema(idx):
               Field("peer", lambda: a, description="to A")],
         interfaces=[node])
     u = UnionType("AB", [a, b])
+    # code-first type resolvers hand back the type OBJECTS they were written
+    # against (documented: an ObjectType or a name)
+    def rt_objects(value, ctx, info):
+        return b if isinstance(value, dict) and "peer" in value else a
+
+    node.resolve_type = rt_objects
+    u.resolve_type = rt_objects
     q = ObjectType(
         "Query",
         [
